@@ -1,4 +1,5 @@
 //@ contract nitrogql_checker::type_system_checker ::fn check_union
+//@   requires [C05.ts_union.pre_schema_wf] crate::schema_wf(&definitions.type_system)
 //@   ensures [C05.ts_union.frame] crate::extends_errs(old(result)@, final(result)@)
 //@   ensures [C05.ts_union.sound] final(result)@.len() == old(result)@.len() ==> crate::valid_union(union, definitions)
 //@   ensures [C05.ts_union.complete] crate::valid_union(union, definitions) ==> final(result)@.len() == old(result)@.len()
